@@ -18,14 +18,14 @@ import (
 )
 
 type Ctx struct {
-	P       *load.Prog
-	R       *report.Report
-	Tier    string
-	Variant string
-	mach    map[string]*fsmx.Machine
-	siteIdx map[ssa.CallInstruction][]*ssa.Function
-	derives []string
-	c18info map[string]*payloadInfo
+	P        *load.Prog
+	R        *report.Report
+	Tier     string
+	Variant  string
+	mach     map[string]*fsmx.Machine
+	siteIdx  map[ssa.CallInstruction][]*ssa.Function
+	derives  []string
+	c18info  map[string]*payloadInfo
 	c18scope []*ssa.Function
 }
 
@@ -40,8 +40,10 @@ func NewCtx(p *load.Prog, r *report.Report, tier string) *Ctx {
 }
 
 // verifyCustomJSON accepts exactly the delegating idiom
-//   func (x T) MarshalJSON() ([]byte, error)   { return json.Marshal(x.F) }
-//   func (x *T) UnmarshalJSON(b []byte) error  { return json.Unmarshal(b, &x.F) }
+//
+//	func (x T) MarshalJSON() ([]byte, error)   { return json.Marshal(x.F) }
+//	func (x *T) UnmarshalJSON(b []byte) error  { return json.Unmarshal(b, &x.F) }
+//
 // on the same field F (the shape of requests.FSMError). Anything else is not verified.
 func (c *Ctx) verifyCustomJSON(t types.Type) string {
 	n, ok := t.(*types.Named)
